@@ -403,7 +403,7 @@ def _decl_tokens(d, out):
                     out.append((doc, "doc"))
                 if optional:
                     out += [("#[optional]", "attr")]
-                out += [("method", "kw"), (mname, "opt"), ("(", "opt")]
+                out += [("method", "kw"), (mname, "opt"), ("(", "lparen")]
                 for k, (dr, t, sh, pn) in enumerate(params):
                     out.append((dr, "sep"))
                     if sh is None:
@@ -412,15 +412,16 @@ def _decl_tokens(d, out):
                         out += [(t, "opt"), ("[", "opt"), ("]", "opt")]
                     else:
                         out += [(t, "opt"), ("[", "opt"), (sh[1:-1], "opt"), ("]", "opt")]
-                    out.append((pn, "opt"))
+                    out.append((pn, "opt" if k != len(params) - 1 else "lastparam"))
                     if k != len(params) - 1:
-                        out.append((",", "opt"))
+                        out.append((",", "comma"))
                 out.append((");", "level"))
         out.append(("};", "level"))
 
 
 def render_trivia(f, rng, mode):
-    """mode: 'plain' | 'ws' | 'level_comments' | 'inner_comments'"""
+    """mode: 'plain' | 'ws' | 'level_comments' | 'inner_comments' | 'param_comments' (ordinary
+    comments after '(', after ',' and before ')' of a method: whole parameters on either side)"""
     toks = []
     for i in f["includes"]:
         toks.append(('include "%s"' % i, "level"))
@@ -437,6 +438,11 @@ def render_trivia(f, rng, mode):
     for k, (tok, gap) in enumerate(toks):
         out.append(tok)
         last = k == len(toks) - 1
+        if gap in ("lparen", "comma", "lastparam"):
+            if mode == "param_comments" and rng.random() < 0.6:
+                out.append(rng.choice(["", " ", "\n"]) + comment() + rng.choice(["", " ", "\n  "]))
+                continue
+            gap = "opt"
         if mode == "plain":
             out.append({"sep": " ", "opt": " " if tok in ("=", ",", ":") or gap == "opt" and False else "", "kw": " ",
                         "level": "\n", "doc": "\n", "attr": "\n", "none": ""}[gap])
